@@ -4,6 +4,7 @@ import (
 	"bufio"
 	"bytes"
 	"errors"
+	"fmt"
 	"io"
 	"regexp"
 	"strings"
@@ -106,7 +107,7 @@ func (ye *yamlEncoder) Encode(writer io.Writer, node *CandidateNode) error {
 	trailingContent := target.FootComment
 	target.FootComment = ""
 
-	if err := encoder.Encode(target); err != nil {
+	if err := safelyEncodeYaml(encoder, target); err != nil {
 		return err
 	}
 
@@ -118,4 +119,14 @@ func (ye *yamlEncoder) Encode(writer io.Writer, node *CandidateNode) error {
 		return colorizeAndPrint(tempBuffer.Bytes(), writer)
 	}
 	return nil
+}
+
+// the yaml library panics on content it cannot emit (e.g. invalid UTF-8 in a comment)
+func safelyEncodeYaml(encoder *yaml.Encoder, target *yaml.Node) (err error) {
+	defer func() {
+		if r := recover(); r != nil {
+			err = fmt.Errorf("unable to encode as yaml: %v", r)
+		}
+	}()
+	return encoder.Encode(target)
 }
